@@ -109,6 +109,9 @@ def parse_bytes(s):
     return bytes.fromhex(s)
 
 
+_SPELL = [0]
+
+
 def run_impl(cfg, events, ops, trace=False, payload_type=bytes, keymode="script", extra=None):
     """returns (rendered string, ws, sock).  keymode: script (set_mask_key with bytes),
     strkey (set_mask_key returning an ASCII str), urandom (default key source; os.urandom is
@@ -146,10 +149,11 @@ def run_impl(cfg, events, ops, trace=False, payload_type=bytes, keymode="script"
         try:
             # an option that is off is LEFT OUT (the documented default of both is False); one that is on is passed
             _fopts = {}
+            _SPELL[0] += 1
             if cfg.get("fire"):
-                _fopts["fire_cont_frame"] = True
+                _fopts["fire_cont_frame"] = 1 if _SPELL[0] % 2 else True
             if cfg.get("skip"):
-                _fopts["skip_utf8_validation"] = True
+                _fopts["skip_utf8_validation"] = 1 if _SPELL[0] % 2 else True
             ws = websocket.create_connection("ws://example.test/", socket=sock, get_mask_key=_fkey, **_fopts)
         finally:
             _os.urandom = _old
@@ -161,7 +165,11 @@ def run_impl(cfg, events, ops, trace=False, payload_type=bytes, keymode="script"
         sock.accepts, sock.acc_i = saved_acc, 0
         sock.send_fail_after, sock.eagain = saved_fail, saved_eagain
     else:
-        ws = websocket.WebSocket(fire_cont_frame=bool(cfg.get("fire")), skip_utf8_validation=bool(cfg.get("skip")),
+        # (boolean options are documented as truthy / falsy switches: every other object gets them as 1 / 0 instead of
+        #  True / False — what the option does must not depend on which spelling of "on" was used)
+        _SPELL[0] += 1
+        _b = (lambda v: (1 if v else 0)) if _SPELL[0] % 2 else bool
+        ws = websocket.WebSocket(fire_cont_frame=_b(cfg.get("fire")), skip_utf8_validation=_b(cfg.get("skip")),
                                  enable_multithread=bool(cfg.get("mt", True)))
     if cfg.get("to") is not None:
         sock.timeout = cfg["to"] / 1000.0
